@@ -48,6 +48,228 @@ def _value_when_debug_zero(test):
         return None
 
 
+# ------------------------------------------------------------------------------------------------
+# abstract values of marker variables
+A_NONE, A_EMPTY, A_NONEMPTY, A_NUM, A_NUM_NZ, A_ZERO, A_TRUE, A_FALSE, A_UNK = (
+    "None", "empty", "nonempty", "number", "nonzero", "zero", "True", "False", "unknown")
+_TRUTH = {A_NONE: (False,), A_EMPTY: (False,), A_NONEMPTY: (True,), A_NUM: (True, False), A_NUM_NZ: (True,),
+          A_ZERO: (False,), A_TRUE: (True,), A_FALSE: (False,), A_UNK: (True, False)}
+
+
+def _abs_value(e, state) -> str:
+    if isinstance(e, ast.Constant):
+        if e.value is None:
+            return A_NONE
+        if e.value is True:
+            return A_TRUE
+        if e.value is False:
+            return A_FALSE
+        if isinstance(e.value, (int, float)):
+            return A_ZERO if e.value == 0 else A_NUM_NZ
+        if isinstance(e.value, str):
+            return A_NONEMPTY if e.value else A_EMPTY
+    if isinstance(e, (ast.List, ast.Tuple, ast.Dict, ast.Set)):
+        n = len(e.elts) if not isinstance(e, ast.Dict) else len(e.keys)
+        return A_NONEMPTY if n else A_EMPTY
+    if isinstance(e, ast.Call) and isinstance(e.func, ast.Name) and e.func.id in ("list", "dict", "set", "tuple") and not e.args:
+        return A_EMPTY
+    if isinstance(e, ast.Name) and e.id in state:
+        return state[e.id]
+    if isinstance(e, (ast.BinOp, ast.Call, ast.Subscript)) or isinstance(e, ast.Name):
+        # arithmetic on offsets / lengths: a number that may be zero; anything else: unknown
+        if isinstance(e, ast.BinOp) or (isinstance(e, ast.Call) and isinstance(e.func, ast.Name) and e.func.id == "len"):
+            return A_NUM
+        if isinstance(e, ast.Name):
+            return A_NUM if e.id in ("offset", "index", "pos", "i") else A_UNK
+        return A_UNK
+    return A_UNK
+
+
+def _outcomes(test, state):
+    """Possible truth values of *test* given the abstract marker state and debug == 0."""
+    v = _value_when_debug_zero(test)
+    if v is not None:
+        return (v,)
+    if isinstance(test, ast.Name) and test.id in state:
+        return _TRUTH[state[test.id]]
+    if isinstance(test, ast.UnaryOp) and isinstance(test.op, ast.Not):
+        return tuple(sorted({not x for x in _outcomes(test.operand, state)}))
+    if isinstance(test, ast.BoolOp):
+        outs = [_outcomes(v_, state) for v_ in test.values]
+        if isinstance(test.op, ast.And):
+            if any(o == (False,) for o in outs):
+                return (False,)
+            if all(o == (True,) for o in outs):
+                return (True,)
+        else:
+            if any(o == (True,) for o in outs):
+                return (True,)
+            if all(o == (False,) for o in outs):
+                return (False,)
+        return (True, False)
+    if isinstance(test, ast.Compare) and len(test.ops) == 1:
+        L, op, R = test.left, test.ops[0], test.comparators[0]
+        if isinstance(L, ast.Name) and L.id in state:
+            a = state[L.id]
+            if isinstance(op, (ast.Is, ast.IsNot)) and isinstance(R, ast.Constant) and R.value is None:
+                if a == A_NONE:
+                    res = True
+                elif a == A_UNK:
+                    return (True, False)
+                else:
+                    res = False
+                return (res,) if isinstance(op, ast.Is) else (not res,)
+            if isinstance(op, (ast.Eq, ast.NotEq)) and isinstance(R, (ast.List, ast.Tuple)) and not R.elts:
+                if a in (A_EMPTY,):
+                    res = True
+                elif a in (A_NONEMPTY,):
+                    res = False
+                else:
+                    return (True, False)
+                return (res,) if isinstance(op, ast.Eq) else (not res,)
+        if isinstance(L, ast.Call) and text(L.func) == "len" and L.args and isinstance(L.args[0], ast.Name) and L.args[0].id in state \
+                and isinstance(R, ast.Constant) and R.value == 0:
+            a = state[L.args[0].id]
+            if a in (A_EMPTY, A_NONEMPTY):
+                ne = a == A_NONEMPTY
+                if isinstance(op, (ast.Gt, ast.NotEq)):
+                    return (ne,)
+                if isinstance(op, ast.Eq):
+                    return (not ne,)
+    return (True, False)
+
+
+def _always_raises_in_normal_mode(prog, fn) -> bool:
+    """The helper cannot reach its normal exit when debug == 0 (every such path raises)."""
+    g = cfg_of(fn)
+    blocked = {}
+    for node in g.nodes:
+        if node.kind == "test":
+            v = _value_when_debug_zero(node.ast)
+            if v is not None:
+                blocked[node.id] = "F" if v else "T"
+    has_raise = any(isinstance(n, ast.Raise) and "CParsingError" in text(n) for n in walk_fn(fn.node))
+    reach = g.reachable(g.entry, follow_exc=False, edge_filter=lambda n, m, lab: not (n in blocked and lab == blocked[n]))
+    return has_raise and g.exit not in reach
+
+
+def unrecognised_is_fatal(prog, rn):
+    from ..calls import callgraph
+    cg = callgraph(prog)
+    g = cfg_of(rn)
+    # pop_tokens calls and the match tests (first component of run_rules' result)
+    pops = [n for n in walk_fn(rn.node) if isinstance(n, ast.Call) and isinstance(n.func, ast.Attribute) and n.func.attr == "pop_tokens"]
+    if not pops:
+        return False, "no pop_tokens call in Registry.run", {}
+    match_vars = set()
+    for n in walk_fn(rn.node):
+        if isinstance(n, ast.Assign) and isinstance(n.targets[0], ast.Tuple) and text(n.value).startswith("self.run_rules") \
+                and isinstance(n.targets[0].elts[0], ast.Name):
+            match_vars.add(n.targets[0].elts[0].id)
+    match_edges = {}
+    for node in g.nodes:
+        if node.kind == "test":
+            t = node.ast
+            if isinstance(t, ast.Name) and t.id in match_vars:
+                match_edges[node.id] = "T"
+            elif isinstance(t, ast.Compare) and isinstance(t.left, ast.Name) and t.left.id in match_vars \
+                    and isinstance(t.ops[0], ast.Is) and text(t.comparators[0]) == "True":
+                match_edges[node.id] = "T"
+    loops = [n for n in walk_fn(rn.node) if isinstance(n, ast.While) and "tokens" in text(n.test)]
+    if len(loops) != 1:
+        return False, "main loop of Registry.run not found", {}
+    loop_test = g.nid(loops[0].test)
+    blind = []
+    for p in pops:
+        pid = _cfg_node_of_expr(g, p)
+        # reachable from the loop test without traversing a "matched" edge?
+        if g.can_reach(loop_test, pid, follow_exc=False,
+                       edge_filter=lambda n, m, lab: not (n in match_edges and lab == match_edges[n])):
+            blind.append(pid)
+    if not blind:
+        return False, "no blind pop_tokens found (every consumption follows a match?) - cannot locate the unrecognised path", {}
+    # marker variables: locals assigned in Registry.run from constants / displays / offsets and tested later
+    tested = set()
+    for node in g.nodes:
+        if node.kind == "test":
+            for x in ast.walk(node.ast):
+                if isinstance(x, ast.Name):
+                    tested.add(x.id)
+    markers = set()
+    for n in walk_fn(rn.node):
+        if isinstance(n, ast.Assign) and len(n.targets) == 1 and isinstance(n.targets[0], ast.Name) and n.targets[0].id in tested \
+                and n.targets[0].id not in match_vars:
+            markers.add(n.targets[0].id)
+    raising_helpers = set()
+    for c in cg.calls_of.get(rn.key, []):
+        for t in c.targets:
+            if t.key != rn.key and t.cls is not None and t.cls.name == "Registry" and _always_raises_in_normal_mode(prog, t):
+                raising_helpers.add(id(c.node))
+
+    def transfer(node, state):
+        """-> (new state dict, terminated?)"""
+        a = node.ast
+        st = dict(state)
+        if node.kind == "stmt" and a is not None:
+            if isinstance(a, ast.Raise):
+                return st, True
+            for c in ast.walk(a):
+                if isinstance(c, ast.Call) and id(c) in raising_helpers:
+                    return st, True
+            if isinstance(a, ast.Assign):
+                for t in a.targets:
+                    if isinstance(t, ast.Name) and t.id in markers:
+                        st[t.id] = _abs_value(a.value, state)
+            elif isinstance(a, ast.AugAssign) and isinstance(a.target, ast.Name) and a.target.id in markers:
+                st[a.target.id] = A_NUM if st.get(a.target.id) in (A_NUM, A_NUM_NZ, A_ZERO) else A_UNK
+            elif isinstance(a, ast.Expr) and isinstance(a.value, ast.Call) and isinstance(a.value.func, ast.Attribute) \
+                    and isinstance(a.value.func.value, ast.Name) and a.value.func.value.id in markers:
+                m = a.value.func
+                if m.attr in ("append", "extend", "add", "insert"):
+                    st[m.value.id] = A_NONEMPTY
+                elif m.attr == "clear":
+                    st[m.value.id] = A_EMPTY
+        if node.id in blind:
+            st["<pending>"] = A_TRUE
+        return st, False
+
+    start = {m: A_UNK for m in markers}
+    start["<pending>"] = A_FALSE
+    seen = set()
+    work = [(g.entry, tuple(sorted(start.items())))]
+    witness = None
+    n_states = 0
+    while work:
+        nid, st_t = work.pop()
+        if (nid, st_t) in seen:
+            continue
+        seen.add((nid, st_t))
+        n_states += 1
+        state = dict(st_t)
+        node = g.nodes[nid]
+        if nid == g.exit:
+            if state.get("<pending>") == A_TRUE and witness is None:
+                witness = {k: v for k, v in state.items() if k != "<pending>"}
+            continue
+        new, dead = transfer(node, state)
+        if dead:
+            continue
+        outs = None
+        if node.kind == "test":
+            outs = _outcomes(node.ast, new)
+        for m, lab in g.succ[nid]:
+            if lab == "exc":
+                continue
+            if outs is not None and lab in ("T", "F") and (lab == "T") not in outs:
+                continue
+            work.append((m, tuple(sorted(new.items()))))
+    stats = {"abstract_states": n_states, "blind_pops": len(blind), "markers": sorted(markers),
+             "raising_helpers": len(raising_helpers)}
+    if witness is not None:
+        return False, f"reachable with marker values {witness} (e.g. a truthiness test on an offset that can be 0)", stats
+    return True, "", stats
+
+
 def check(run, prog):
     cg = callgraph(prog)
     # ---- R-7.1 ownership -----------------------------------------------------------------
@@ -99,65 +321,16 @@ def check(run, prog):
            bad[0][1] if bad else None)
 
     # ---- R-7.2 unrecognised => fatal ---------------------------------------------------------
-    run.rule("R-7.2", "MPT/typestate: from every append to the list of unrecognised tokens in Registry.run, every path to "
-             "the function's normal exit passes through `raise CParsingError` unless it passed a test that the debug level "
-             "is non-zero", floor=2)
+    run.rule("R-7.2", "typestate by abstract interpretation of Registry.run (debug level fixed at 0): after a `blind` "
+             "pop_tokens (one that can be reached without a primary having matched in that iteration) no path reaches the "
+             "normal end of the function without raising CParsingError; the local marker variables that remember the "
+             "unrecognised tokens are tracked with the abstract values None / empty / non-empty / number-possibly-zero",
+             floor=1)
     rn = prog.fn("registry.py::Registry.run")
-    g = cfg_of(rn)
-    appends = [n for n in walk_fn(rn.node) if isinstance(n, ast.Call) and isinstance(n.func, ast.Attribute)
-               and n.func.attr == "append" and isinstance(n.func.value, ast.Name)]
-    # the list that collects context.tokens[0]
-    appends = [a for a in appends if a.args and "tokens[0]" in text(a.args[0])]
-    run.require(len(appends) >= 1, "anchor vanished: unrecognised-token list append in Registry.run")
-    lst = appends[0].func.value.id
-    raises = {g.nid(n) for n in walk_fn(rn.node) if isinstance(n, ast.Raise) and "CParsingError" in text(n)}
-    raises.discard(None)
-    # debug tests: edges on which context.debug is known non-zero
-    debug_edges = {}
-    for node in g.nodes:
-        if node.kind == "test":
-            v = _value_when_debug_zero(node.ast)
-            if v is not None:
-                debug_edges[node.id] = "F" if v else "T"     # the other outcome needs a non-zero debug level
-    # resets of the list (unrecognized_tkns = []) end the obligation; they must themselves be debug-guarded
-    resets = {g.nid(n) for n in walk_fn(rn.node) if isinstance(n, ast.Assign) and any(
-        isinstance(t, ast.Name) and t.id == lst for t in n.targets) and isinstance(n.value, ast.List) and not n.value.elts}
-    resets.discard(None)
-    init_resets = {r for r in resets if not any(isinstance(a, (ast.While, ast.For, ast.If)) for a in ancestors(g.nodes[r].ast))}
-    loop_resets = resets - init_resets
-
-    # tests on the emptiness of the list: while the list is non-empty (after an append, no reset on the
-    # path) only the "non-empty" outcome is feasible
-    nonempty_edge = {}
-    for node in g.nodes:
-        if node.kind == "test":
-            t = text(node.ast)
-            if t in (f"{lst} != []", lst, f"len({lst}) > 0", f"len({lst})", f"len({lst}) != 0", f"{lst} != list()"):
-                nonempty_edge[node.id] = "T"
-            elif t in (f"{lst} == []", f"not {lst}", f"len({lst}) == 0", f"not len({lst})"):
-                nonempty_edge[node.id] = "F"
-
-    def normal_edge(n, m, lab):
-        if lab == "exc":
-            return False
-        if n in nonempty_edge and lab != nonempty_edge[n]:
-            return False          # infeasible: the list is known to be non-empty on this path
-        if n in debug_edges and lab == debug_edges[n]:
-            return False          # this way the debug level is non-zero: the property does not compare those runs
-        return True
-
-    for a in appends:
-        aid = _cfg_node_of_expr(g, a)
-        escapes = g.can_reach(aid, g.exit, avoid=raises | loop_resets, follow_exc=False, edge_filter=normal_edge)
-        run.ob("R-7.2", f"{rn.key}::unrecognised->fatal", not escapes and bool(raises),
-               "a path from recording an unrecognised token to the normal end of Registry.run avoids `raise CParsingError` "
-               "in normal (debug == 0) mode: the text is dropped while the file still gets a verdict", a)
-    for r in sorted(loop_resets):
-        # a reset inside the loop is only reachable through a debug edge or after the raise
-        n = g.nodes[r]
-        reach_plain = g.can_reach(_cfg_node_of_expr(g, appends[0]), r, avoid=raises, follow_exc=False, edge_filter=normal_edge)
-        run.ob("R-7.2", f"{rn.key}::reset-guarded", not reach_plain,
-               "the list of unrecognised tokens is emptied in normal mode without the fatal error", n.ast)
+    ok, why, stats = unrecognised_is_fatal(prog, rn)
+    run.ob("R-7.2", f"{rn.key}::unrecognised->fatal", ok,
+           "text that no primary recognises can be consumed and the run still reaches the normal end of Registry.run in "
+           f"normal (debug == 0) mode: {why}", rn.node, **stats)
 
     # ---- R-7.3 not swallowed --------------------------------------------------------------------
     run.rule("R-7.3", "EXC: no try below main catches CParsingError (or a base) raised by the registry without re-raising",
